@@ -133,24 +133,38 @@ def breakAt (p : Nat → Bool) : Str → Option (Str × Str)
   | [] => none
   | c :: cs => if p c then some ([], cs) else (breakAt p cs).map fun (a, b) => (c :: a, b)
 
+def isDash (c : Nat) : Bool := c == 45
+def isTee (c : Nat) : Bool := c == 84 || c == 116
+def isColon (c : Nat) : Bool := c == 58
+def isZed (c : Nat) : Bool := c == 90 || c == 122
+
 /-- `datetime.strptime(field, '%Y-%m-%dT%H:%M:%SZ')` for ASCII fields
     (the format regex is compiled with IGNORECASE, so `t`/`z` are accepted). -/
-def parseTs? (f : Str) : Option Ts := do
-  let (y, r) ← breakAt (· == 45) f
-  let (mo, r) ← breakAt (· == 45) r
-  let (d, r) ← breakAt (fun c => c == 84 || c == 116) r
-  let (h, r) ← breakAt (· == 58) r
-  let (mi, r) ← breakAt (· == 58) r
-  let (s, r) ← breakAt (fun c => c == 90 || c == 122) r
-  if r ≠ [] then none
-  if !(y.length == 4 && y.all isDigit) then none
-  let mo ← field12? 1 12 mo
-  let d ← field12? 1 31 d
-  let h ← field12? 0 23 h
-  let mi ← field12? 0 59 mi
-  let s ← field12? 0 61 s
-  let t : Ts := ⟨digitsVal y, mo, d, h, mi, s⟩
-  if t.valid then some t else none
+def parseTs? (f : Str) : Option Ts :=
+  match breakAt isDash f with
+  | none => none
+  | some (y, r1) =>
+  match breakAt isDash r1 with
+  | none => none
+  | some (mo, r2) =>
+  match breakAt isTee r2 with
+  | none => none
+  | some (d, r3) =>
+  match breakAt isColon r3 with
+  | none => none
+  | some (h, r4) =>
+  match breakAt isColon r4 with
+  | none => none
+  | some (mi, r5) =>
+  match breakAt isZed r5 with
+  | none => none
+  | some (s, r6) =>
+    if !r6.isEmpty then none
+    else if !(y.length == 4 && y.all isDigit) then none
+    else match field12? 1 12 mo, field12? 1 31 d, field12? 0 23 h, field12? 0 59 mi, field12? 0 61 s with
+      | some mo, some d, some h, some mi, some s =>
+        if (Ts.mk (digitsVal y) mo d h mi s).valid then some (Ts.mk (digitsVal y) mo d h mi s) else none
+      | _, _, _, _, _ => none
 
 def pad2 (n : Nat) : Str := [48 + n / 10, 48 + n % 10]
 def pad4 (n : Nat) : Str := [48 + n / 1000, 48 + n / 100 % 10, 48 + n / 10 % 10, 48 + n % 10]
